@@ -3,9 +3,9 @@ package main
 // E-CLI: wiring of cmd/bcl.
 
 import (
-	"go/constant"
 	"fmt"
 	"go/ast"
+	"go/constant"
 	"go/token"
 	"go/types"
 	"sort"
@@ -305,7 +305,11 @@ func checkC18(c *Ctx, r *Report) {
 		r.check(ok2, "exit-codes", "run", "the run error on standard error, exit 1", fmt.Sprintf("when run fails main does [%s]; documented: the error on standard error and exit status %d", d2, spec.ExitRun), c.pos(mainFn.Pos()))
 		// help
 		d3, o3 := scen(map[string]Value{funcNameOfDeclQ(c, pa): paOK, funcNameOfDeclQ(c, run): tagV("nil", nil)}, tagV("helpfn", nil))
-		ok3 := len(o3) == 1 && o3[0].Result == fmt.Sprintf("exit(%d)", spec.ExitHelp) && has(o3[0], "call:field:help") && !has(o3[0], "call:"+funcNameOfDeclQ(c, run)) && !has(o3[0], "print:Stderr")
+		// main returning normally is exit status 0
+		helpExit := func(res string) bool {
+			return res == fmt.Sprintf("exit(%d)", spec.ExitHelp) || (spec.ExitHelp == 0 && res == "?")
+		}
+		ok3 := len(o3) == 1 && helpExit(o3[0].Result) && has(o3[0], "call:field:help") && !has(o3[0], "call:"+funcNameOfDeclQ(c, run)) && !has(o3[0], "print:Stderr")
 		r.check(ok3, "exit-codes", "help", "help printed, exit 0, nothing run", fmt.Sprintf("with -h main does [%s]; documented: the help function called, exit status %d, the program not run", d3, spec.ExitHelp), c.pos(mainFn.Pos()))
 	}
 	okDie := len(die.Body.List) == 2
@@ -355,6 +359,26 @@ func checkC18(c *Ctx, r *Report) {
 				}
 				return true
 			})
+		}
+		// the two writer defaults by what they are for, whatever the fields are called: results -> Stdout, diagnostics -> Stderr
+		var outs, logs []string
+		for k, v := range got {
+			lk := strings.ToLower(k)
+			switch v {
+			case "os.Stdout":
+				outs = append(outs, k)
+				if strings.Contains(lk, "log") || strings.Contains(lk, "err") {
+					outs = append(outs, "!"+k)
+				}
+			case "os.Stderr":
+				logs = append(logs, k)
+				if !(strings.Contains(lk, "log") || strings.Contains(lk, "err") || strings.Contains(lk, "diag")) {
+					logs = append(logs, "!"+k)
+				}
+			}
+		}
+		if len(outs) == 1 && len(logs) == 1 {
+			got["output"], got["logw"] = "os.Stdout", "os.Stderr"
 		}
 		r.check(got["output"] == "os.Stdout" && got["logw"] == "os.Stderr", "streams", "library-defaults", "output: os.Stdout, logw: os.Stderr", fmt.Sprintf("makeConfig defaults are %v; must be output: os.Stdout, logw: os.Stderr", got), c.pos(mk.Pos()))
 	}
@@ -486,7 +510,6 @@ func isStringSlice(t types.Type) bool {
 	sl, ok := t.Underlying().(*types.Slice)
 	return ok && types.TypeString(sl.Elem(), nil) == "string"
 }
-
 
 // funcNameOfDeclQ: the qualified name ("cmd.run") under which a command function appears as a callee.
 func funcNameOfDeclQ(c *Ctx, fd *ast.FuncDecl) string {
